@@ -2,7 +2,8 @@
 set -e
 . $MC/par.sh
 H=$VERIF/harness/c02
-CF="-std=c++17 -O2 -g -fsanitize=address -fno-omit-frame-pointer -I$REPO -I$MC -I$H"
+TT=0; [ "$TIER" = thorough ] && TT=1
+CF="-DTIER_THOROUGH=$TT -std=c++17 -O2 -g -fsanitize=address -fno-omit-frame-pointer -I$REPO -I$MC -I$H"
 # std_portable.h: vector::erase(first,last) calls a three-argument igris::move that the header may not
 # provide (it then cannot be instantiated at all); probe, and leave the operation out if so.
 cat > $BUILD/probe.cpp <<'EOP'
